@@ -91,6 +91,7 @@ func EnumIterPaths(fn *ssa.Function, l *Loop, limit int) ([]*IterPath, bool) {
 			if n.hasCond {
 				iff := last.(*ssa.If)
 				c2 = append(append([]Guard{}, conds...), Guard{iff.Cond, n.outcome, b})
+				c2 = append(c2, resolvedConds(blocks, iff.Cond, n.outcome, b)...)
 				e2.assume(iff.Cond, n.outcome)
 			}
 			switch {
@@ -370,6 +371,7 @@ func EnumRegionPaths(fn *ssa.Function, start *ssa.BasicBlock, stop func(*ssa.Bas
 			if n.hasCond {
 				iff := last.(*ssa.If)
 				c2 = append(append([]Guard{}, conds...), Guard{iff.Cond, n.outcome, b})
+				c2 = append(c2, resolvedConds(blocks, iff.Cond, n.outcome, b)...)
 				e2.assume(iff.Cond, n.outcome)
 			}
 			if onPath[n.s] || n.s == start {
@@ -385,6 +387,47 @@ func EnumRegionPaths(fn *ssa.Function, start *ssa.BasicBlock, stop func(*ssa.Bas
 
 // ResolveAt follows phis along the path like Resolve, treating the path as a plain block sequence.
 func (ip *IterPath) ResolveAt(v ssa.Value) ssa.Value {
-	sub := &IterPath{Blocks: ip.Blocks, End: "partial"}
+	blocks := ip.Blocks
+	if ip.End == "back" && len(blocks) > 1 {
+		// the header revisit that closes the iteration defines the NEXT iteration's phis; a value used
+		// inside this iteration that resolves to a header phi means the value at iteration start
+		blocks = blocks[:len(blocks)-1]
+	}
+	sub := &IterPath{Blocks: blocks, End: "partial"}
 	return sub.Resolve(v)
+}
+
+// resolvedConds: a branch on a boolean phi (what `case a && b:` or `x := a && b; if x` compile to)
+// says, on a given path, something about the value the phi received on that path. When that value is an
+// ordinary condition (not a constant), the outcome is recorded for it as well, so that rules looking for
+// `pool >= x` among the outcomes of a path find it whichever way the test is written.
+func resolvedConds(blocks []*ssa.BasicBlock, cond ssa.Value, outcome bool, at *ssa.BasicBlock) []Guard {
+	var out []Guard
+	v := cond
+	for depth := 0; depth < 6; depth++ {
+		if u, ok := v.(*ssa.UnOp); ok && u.Op == token.NOT {
+			v, outcome = u.X, !outcome
+			continue
+		}
+		ph, ok := v.(*ssa.Phi)
+		if !ok {
+			break
+		}
+		r := (&IterPath{Blocks: blocks, End: "partial"}).Resolve(ph)
+		if r == ssa.Value(ph) {
+			break
+		}
+		if _, isC := r.(*ssa.Const); isC {
+			break
+		}
+		v = r
+		if _, isPhi := v.(*ssa.Phi); !isPhi {
+			if u, ok := v.(*ssa.UnOp); ok && u.Op == token.NOT {
+				continue
+			}
+			out = append(out, Guard{v, outcome, at})
+			break
+		}
+	}
+	return out
 }
